@@ -222,3 +222,31 @@ fn compare_scalar_values(a: &ScalarValue, b: &ScalarValue) -> Ordering {
     // Use the efficient direct comparison method
     a.compare(b)
 }
+
+/// Verification hook (cfg(kani) only): ordering of two heap items of the k-way merge as
+/// `BinaryHeap` sees it, for single-column rows.
+#[cfg(kani)]
+pub fn verif_heap_item_cmp(
+    a_key: ScalarValue,
+    a_shard: usize,
+    b_key: ScalarValue,
+    b_shard: usize,
+    ascending: bool,
+) -> Ordering {
+    let a = HeapItem {
+        shard_idx: a_shard,
+        row: vec![a_key],
+        order_index: 0,
+        ascending,
+    };
+    let b = HeapItem {
+        shard_idx: b_shard,
+        row: vec![b_key],
+        order_index: 0,
+        ascending,
+    };
+    let ord = a.cmp(&b);
+    std::mem::forget(a);
+    std::mem::forget(b);
+    ord
+}
